@@ -231,8 +231,9 @@ func (ms MultipleSubs) Sanitize() error {
 }
 
 func (as AlternateSubs) Sanitize() error {
-	if exp, got := as.Coverage.Len(), len(as.AlternateSets); exp != got {
-		return fmt.Errorf("GSUB: invalid AlternateSubs sets count (%d != %d)", exp, got)
+	// additional sets are harmless
+	if exp, got := as.Coverage.Len(), len(as.AlternateSets); exp > got {
+		return fmt.Errorf("GSUB: invalid AlternateSubs sets count (%d > %d)", exp, got)
 	}
 	return nil
 }
@@ -416,14 +417,10 @@ func (mp *MarkMarkPos) Sanitize() error {
 	if mp.Mark1Coverage == nil || mp.Mark2Coverage == nil {
 		return errMissingCoverage
 	}
-	if exp, got := mp.Mark1Coverage.Len(), len(mp.Mark1Array.MarkRecords); exp != got {
-		return fmt.Errorf("GPOS: invalid MarkMarkPos marks count (%d != %d)", exp, got)
-	}
-	if exp, got := mp.Mark2Coverage.Len(), len(mp.Mark2Array.mark2Records); exp != got {
-		return fmt.Errorf("GPOS: invalid MarkMarkPos marks count (%d != %d)", exp, got)
-	}
-	if err := mp.Mark2Array.Anchors().sanitizeOffsets(); err != nil {
-		return err
+	// The mark array is indexed by the coverage index (additional records are harmless);
+	// the mark2 array is read through [AnchorMatrix.Anchor], which checks its arguments.
+	if exp, got := mp.Mark1Coverage.Len(), len(mp.Mark1Array.MarkRecords); exp > got {
+		return fmt.Errorf("GPOS: invalid MarkMarkPos marks count (%d > %d)", exp, got)
 	}
 
 	return nil
